@@ -73,6 +73,8 @@ def _destination(fn, node, ps):
             f = A.path_str(p["func"]) or ""
             if f.endswith("Error::new") or f.endswith("Error::new_spanned") or f.endswith("::error"):
                 return "diagnostic"
+            if f.endswith("Ident::new") or f.endswith("Ident::new_raw"):
+                return "ident-new"
         if k == "Expr::Match":
             sc = p["expr"]
             sp, sn = A.span_of(sc), A.span_of(node)
@@ -252,6 +254,19 @@ def rule_raw_id(ctx):
 
                     caps = _re.findall(r"\{([A-Za-z_][A-Za-z0-9_]*)(?::[^}]*)?\}", pat)
                     macname = A.path_last(mac["path"])
+                    if macname == "format":
+                        # positional arguments that are plain variables: `format!("__{}", ident)`
+                        arg, args_ = [], []
+                        for t_ in toks[1:]:
+                            if A.kind(t_) == "Punct" and A.punct_char(t_) == ",":
+                                args_.append(arg)
+                                arg = []
+                            else:
+                                arg.append(t_)
+                        args_.append(arg)
+                        for a_ in args_:
+                            if len(a_) == 1 and A.kind(a_[0]) == "Ident" and a_[0]["sym"] not in caps:
+                                caps.append(a_[0]["sym"])
                     for cap in caps:
                         b = TY.resolve(fn, cap, spn[0])
                         ty = TY.binding_type(ctx, fn, b) or ""
@@ -263,12 +278,12 @@ def rule_raw_id(ctx):
                         n += 1
                         construct = f"{rel}::{fn.qual}:{macname}!({{{cap}}})->{dest}"
                         ctx.instance(construct, nontrivial=bool(user), sample={"site": construct, "user_ident": user})
-                        if user and dest in ("format_ident", "template"):
+                        if user and dest in ("format_ident", "template", "ident-new"):
                             ctx.report(
                                 f"{rel}::{fn.qual}:{macname}!{{{cap}}}:{dest}",
                                 f"{rel}:{f.line(spn[0])}",
                                 f"`{macname}!(\"{pat}\")` in `{fn.qual}` captures the user identifier `{cap}` through `Display` (keeps `r#`): "
-                                + ("`format_ident!` then panics for a raw identifier (inline captures bypass IdentFragment)" if dest == "format_ident" else "generated code shows `r#name`"),
+                                + ("`format_ident!` then panics for a raw identifier (inline captures bypass IdentFragment)" if dest == "format_ident" else "`Ident::new` panics on a name containing `r#` (\"not a valid Ident\")" if dest == "ident-new" else "generated code shows `r#name`"),
                                 {},
                             )
     # (c) conversions written inside the token arguments of format_ident! (not parsed as expressions)
